@@ -130,6 +130,14 @@ func c06Run(r *Run, hp, kind string) {
 		if !o.OK {
 			return o, p, false
 		}
+		if p.Sent == nil {
+			// accepted although the reference model refuses it: whatever was emitted cannot carry
+			// "exactly the requested" fields if a requested field does not have its wire size
+			if bad := c06UncarriableField(a); bad != "" {
+				r.Violate("C06 message emitted for a request whose "+bad+" cannot be carried exactly", a.Desc, rp("no message", "ok"))
+			}
+			return o, p, false
+		}
 		sent := MessageSentOf(o.Events)
 		if len(sent) != 1 || p.Sent == nil {
 			r.Violate("C06 producing transaction did not emit exactly one MessageSent", fmt.Sprintf("%s: %d", a.Desc, len(sent)), rp("1", fmt.Sprint(len(sent))))
@@ -214,7 +222,7 @@ func c06Run(r *Run, hp, kind string) {
 							check(a)
 							continue
 						}
-						for ci, cl := range pats {
+						for ci, cl := range append(append([][]byte{}, pats...), pats[0][:20], append(append([]byte{}, pats[0]...), 9)) {
 							a := MkSendWithCaller(s.Str, d, rc, body, cl)
 							a.Desc = fmt.Sprintf("sendWithCaller(dst=%d,recipient#%d,body#%d,caller#%d) by %s", d, ri, bi, ci, s.Name)
 							check(a)
@@ -241,7 +249,7 @@ func c06Run(r *Run, hp, kind string) {
 							}
 							continue
 						}
-						for ci, cl := range pats {
+						for ci, cl := range append(append([][]byte{}, pats...), pats[0][:20], append(append([]byte{}, pats[0]...), 9)) {
 							a := MkDepositWithCaller(s.Str, amt, d, rc, "uusdc", cl)
 							a.Desc = fmt.Sprintf("depositWithCaller(%s,dst=%d,recipient#%d,caller#%d) by %s", amt, d, ri, ci, s.Name)
 							if o, p, ok := check(a); ok {
@@ -354,4 +362,33 @@ func sentNonce(o Outcome) uint64 {
 		}
 	}
 	return 0
+}
+
+// c06UncarriableField names a requested 32-byte field that does not have 32 bytes.
+func c06UncarriableField(a Action) string {
+	switch x := mustDecode(a).(type) {
+	case *cctptypes.MsgSendMessageWithCaller:
+		if len(x.DestinationCaller) != 32 {
+			return "destination caller"
+		}
+		if len(x.Recipient) != 32 {
+			return "recipient"
+		}
+	case *cctptypes.MsgSendMessage:
+		if len(x.Recipient) != 32 {
+			return "recipient"
+		}
+	case *cctptypes.MsgDepositForBurnWithCaller:
+		if len(x.DestinationCaller) != 32 {
+			return "destination caller"
+		}
+		if len(x.MintRecipient) != 32 {
+			return "mint recipient"
+		}
+	case *cctptypes.MsgDepositForBurn:
+		if len(x.MintRecipient) != 32 {
+			return "mint recipient"
+		}
+	}
+	return ""
 }
